@@ -656,7 +656,9 @@ func genDefrag(ctx *Ctx, emit func(any, string)) {
 					if k%7 == 0 {
 						kind = dfKinds[(k/7)%len(dfKinds)]
 					}
-					emit(mk(lim, dfFlat(p, kind, opt)), "exhaustive")
+					fl := dfFlat(p, kind, opt)
+					fl.Fifo = k%5 == 0 // the ordering mode is about Pop only
+					emit(mk(lim, fl), "exhaustive")
 				}
 			}
 		}
@@ -688,6 +690,7 @@ func genDefrag(ctx *Ctx, emit func(any, string)) {
 		if r.Pct(10) {
 			root.Mutex = true
 		}
+		root.Fifo = r.Pct(25)
 		emit(mk(dfRandArgs(r), root), "random")
 	}
 	// -- nesting, structured: a pattern placed inside a Stack, inside a
@@ -701,6 +704,7 @@ func genDefrag(ctx *Ctx, emit func(any, string)) {
 		opt := []int{0, 0, 16, 32, 48}[r.Intn(5)]
 		inner := dfFlat(p, dfKinds[r.Intn(len(dfKinds))], opt)
 		inner.A = dfAliases[r.Intn(len(dfAliases))]
+		inner.Fifo = r.Pct(25)
 		if r.Pct(15) {
 			inner.Opt |= 128 // read-only: no ancestor's Defrag may touch it, however it is reached
 		}
